@@ -66,6 +66,29 @@ def registry(rep, names):
     rep.count("registry_probes", n)
 
 
+def present(np, x, y, k):
+    """The same two vectors handed over the ways callers hold them: fresh float64 arrays, read-only arrays, integer-typed arrays
+    (when every component is integral), rows of a 2-D array (what a Node's features are), strided views."""
+    how = ("float64", "readonly", "integer", "rows", "strided")[k % 5]
+    if how == "integer" and not all(float(v).is_integer() for v in list(x) + list(y)):
+        how = "readonly"
+    if how == "float64":
+        return np.array(x, dtype=float), np.array(y, dtype=float), how
+    if how == "readonly":
+        a, b = np.array(x, dtype=float), np.array(y, dtype=float)
+        a.setflags(write=False)
+        b.setflags(write=False)
+        return a, b, how
+    if how == "integer":
+        return np.array([int(v) for v in x], dtype=np.int64), np.array([int(v) for v in y], dtype=np.int64), how
+    if how == "rows":
+        m = np.array([x, y], dtype=float)
+        return m[0], m[1], how
+    m = np.zeros((2, 2 * len(x)))
+    m[0, ::2], m[1, ::2] = x, y
+    return m[0, ::2], m[1, ::2], how
+
+
 def run(tier, seed):
     rep = H.Report(PID, tier, seed, "exploration")
     H.import_opfython()
@@ -78,6 +101,7 @@ def run(tier, seed):
     thorough = tier == "thorough"
     ncmp = 0
     nontrivial = set()
+    shapes = set()
     for nm in sorted(names):
         if nm not in d.DISTANCES:
             continue
@@ -97,11 +121,13 @@ def run(tier, seed):
                 if math.isnan(ref) or math.isinf(ref):
                     rep.skip("reference_not_finite")
                     continue
+                ax_, ay_, how = present(np, x, y, ncmp)
                 try:
-                    code = float(fn(np.array(x, dtype=float), np.array(y, dtype=float)))
+                    code = float(fn(ax_, ay_))
                 except Exception as ex:
-                    rep.violation("DISTANCES[%s]" % nm, "metric_raised_on_in_domain_vectors", nm, {"metric": nm, "x": x, "y": y, "exception": "%s: %s" % (type(ex).__name__, str(ex)[:100]), "reference": ref})
+                    rep.violation("DISTANCES[%s]" % nm, "metric_raised_on_in_domain_vectors", nm, {"metric": nm, "x": x, "y": y, "passed_as": how, "exception": "%s: %s" % (type(ex).__name__, str(ex)[:100]), "reference": ref})
                     break
+                shapes.add(how)
                 ncmp += 1
                 nontrivial.add((nm, L, x != y))
                 atol = 1e-6 if nm in ROOT_OF_DIFFERENCE else 1e-300
@@ -115,7 +141,8 @@ def run(tier, seed):
     rep.sample({"metric": "chi_squared", "L": 2, "term": forms[("chi_squared", 2)]})
     rep.cov["evaluations"] = ncmp
     rep.cov["distinct_nontrivial"] = len(nontrivial)
-    rep.cov["rule"] = "47 identifiers x vector lengths 1..6 x (exact grid {0,.5,1,1.5,2,3} (+negatives for norm-type), zero-containing, random in-domain, identical and parallel pairs); distinct_nontrivial counts (metric, length, x!=y) combinations compared; registry: 47 names + ~240 near-miss strings x 5 model classes"
+    rep.cov["argument_presentations"] = sorted(shapes)
+    rep.cov["rule"] = "47 identifiers x vector lengths 1..6 x (exact grid {0,.5,1,1.5,2,3} (+negatives for norm-type), zero-containing, random in-domain, identical and parallel pairs), arguments handed over as fresh float64 / read-only / integer-typed arrays, rows of a matrix and strided views; distinct_nontrivial counts (metric, length, x!=y) combinations compared; registry: 47 names + ~240 near-miss strings x 5 model classes"
     rep.assumptions = ["closed forms are held in Metrics.tla and instantiated by TLC per vector length; evaluated in float64 by lib/terms.py", "comparison under rtol 1e-9 x conditioning scale (atol 1e-6 for chord): sampling over the reals, not model checking", "the reference forms are the library's definitions at the pinned commit (Cha 2007 up to documented constant factors)"]
     return rep.finish()
 
